@@ -295,3 +295,33 @@ def regex_eval(queries):
         else:
             res.append('E')
     return res
+
+
+_helper_exe = None
+
+
+def rec_helper():
+    """Build (once) the recording helper used by exec / command checks."""
+    global _helper_exe
+    if _helper_exe is None:
+        d = mktemp('mdv-helper-')
+        exe = os.path.join(d, 'rechelper')
+        sh(['cc', '-O1', '-o', exe, os.path.join(VERIF, 'cdrv', 'rechelper.c')], check=True)
+        _helper_exe = exe
+    return _helper_exe
+
+
+def helper_calls(outdir):
+    """-> list of dict(argv=[bytes], stdin=bytes, fds=[(n, target)], offset=int) in call order"""
+    res = []
+    for h in sorted(os.listdir(outdir)):
+        p = os.path.join(outdir, h)
+        try:
+            argv = open(os.path.join(p, 'argv'), 'rb').read().split(b'\0')[:-1]
+            stdin = open(os.path.join(p, 'stdin'), 'rb').read()
+            fds = [tuple(l.split(' ', 1)) for l in open(os.path.join(p, 'fds')).read().splitlines()]
+            off = int(open(os.path.join(p, 'offset')).read().strip() or -1)
+        except OSError:
+            continue
+        res.append({'argv': argv, 'stdin': stdin, 'fds': fds, 'offset': off})
+    return res
